@@ -51,7 +51,7 @@ func (c *Case) docs() model.Corpus {
 func genCase(t *rapid.T) Case {
 	var c Case
 	// class weights: the big ones are expensive, so they are rare in quick and forced up in thorough
-	classes := []string{"small", "small", "small", "small", "small", "small", "small", "dict-block", "dict-exact", "fat-token", "id-block", "id-exact", "lid-block"}
+	classes := []string{"small", "small", "small", "small", "small", "small", "small", "dict-block", "dict-exact", "fat-token", "id-block", "id-exact", "lid-block", "lid-exact"}
 	if evid.Thorough() {
 		classes = append(classes, "dict-block", "dict-exact", "fat-token", "id-block", "id-exact", "lid-block", "lid-exact")
 	}
@@ -74,8 +74,8 @@ func genCase(t *rapid.T) Case {
 		c.Synth = gen.Synth{N: 4096*rapid.IntRange(1, 2).Draw(t, "k") + rapid.IntRange(-1, 1).Draw(t, "d"), PerMID: per, UniqLen: 10}
 	case "lid-block": // one token with more than 65536 postings
 		c.Synth = gen.Synth{N: rapid.IntRange(65537, 90000).Draw(t, "n"), PerMID: per, Big: true}
-	case "lid-exact":
-		c.Synth = gen.Synth{N: 65536*rapid.IntRange(1, 2).Draw(t, "k") + rapid.IntRange(-1, 1).Draw(t, "d"), PerMID: per, Big: true}
+	case "lid-exact": // a token's postings end exactly at (or one off) a LID block end
+		c.Synth = gen.Synth{N: 65536*rapid.IntRange(1, 2).Draw(t, "k") + rapid.SampledFrom([]int{0, 0, 0, -1, 1}).Draw(t, "d"), PerMID: per, Big: true}
 	}
 	if c.Class != "small" && rapid.Bool().Draw(t, "mix") {
 		c.Corpus = gen.Corpus(t, gen.CorpusOpts{MaxDocs: 20, MIDSpread: 50})
@@ -217,6 +217,10 @@ func runCase(c Case) (evid.Result, error) {
 	}
 	if c.Synth.Big && c.Synth.N > 65536 {
 		res.Labels = append(res.Labels, "measured:postings>1block")
+		res.NonTrivial = true
+	}
+	if n := len(c.Corpus) + c.Synth.N; n > 0 && n%65536 == 0 {
+		res.Labels = append(res.Labels, "measured:postings-of-a-field-end-exactly-at-a-LID-block-end")
 		res.NonTrivial = true
 	}
 	if c.Synth.UniqLen*c.Synth.N > 16384 || c.Synth.FatN*c.Synth.FatLen > 16384 {
